@@ -571,6 +571,35 @@ fn run_spec(spec: &J) -> J {
 
 // ---------------------------------------------------------------- requests
 
+struct Persist {
+    tx: std::sync::mpsc::Sender<J>,
+    rx: std::sync::mpsc::Receiver<J>,
+    used: usize,
+    stack_mb: usize,
+}
+
+impl Persist {
+    fn spawn(stack_mb: usize) -> Persist {
+        let (tx, rx_in) = std::sync::mpsc::channel::<J>();
+        let (tx_out, rx) = std::sync::mpsc::channel::<J>();
+        std::thread::Builder::new()
+            .stack_size(stack_mb << 20)
+            .spawn(move || {
+                while let Ok(spec) = rx_in.recv() {
+                    if tx_out.send(run_spec(&spec)).is_err() {
+                        break;
+                    }
+                }
+            })
+            .expect("spawn");
+        Persist { tx, rx, used: 0, stack_mb }
+    }
+}
+
+thread_local! {
+    static PERSIST: RefCell<Option<Persist>> = RefCell::new(None);
+}
+
 fn run_request(req: &J, default_stack_mb: usize) -> J {
     let id = req.get("id").cloned().unwrap_or(J::Null);
     let stack_mb = req
@@ -580,6 +609,31 @@ fn run_request(req: &J, default_stack_mb: usize) -> J {
         .unwrap_or(default_stack_mb);
     if let Some(bt) = req.get("batch").and_then(|v| v.as_array()) {
         let mut results = Vec::new();
+        if !req.get("fresh").and_then(|v| v.as_bool()).unwrap_or(false) {
+            // persistent compile thread: realistic "many compilations on one thread" usage and
+            // far fewer page faults than a thread per compilation; recycled regularly so the
+            // thread-local interner stays small.
+            let recycle = req.get("recycle").and_then(|v| v.as_u64()).unwrap_or(400) as usize;
+            PERSIST.with(|p| {
+                let mut p = p.borrow_mut();
+                for spec in bt {
+                    if p.as_ref().map_or(true, |t| t.used >= recycle || t.stack_mb != stack_mb) {
+                        *p = Some(Persist::spawn(stack_mb));
+                    }
+                    let t = p.as_mut().unwrap();
+                    t.used += 1;
+                    let r = match t.tx.send(spec.clone()) {
+                        Ok(()) => t.rx.recv().unwrap_or_else(|_| json!({"thread_panicked": true})),
+                        Err(_) => json!({"thread_panicked": true}),
+                    };
+                    if r.get("thread_panicked").is_some() {
+                        *p = None;
+                    }
+                    results.push(r);
+                }
+            });
+            return json!({"id": id, "batch": results});
+        }
         for spec in bt {
             let spec = spec.clone();
             let h = std::thread::Builder::new()
@@ -749,7 +803,9 @@ fn main() {
             }
         };
         let resp = run_request(&req, stack_mb);
-        let _ = writeln!(writer, "{}", resp);
+        let mut line = resp.to_string();
+        line.push('\n');
+        let _ = writer.write_all(line.as_bytes());
         let _ = writer.flush();
     }
 }
